@@ -441,4 +441,141 @@ def readData2 (ri : IS → Out LoopRes) (cm wsMode : Bool) (iters maxErr fuel : 
   let (s0, e) := foundEndSecKywd s
   dataLoop (recoverLoop (findStartOfInstance fuel) tok fuel) (instOrSkip ri skip) tok wsMode true maxErr fuel s0 e 0 false 0 0 0
 
+/-! ### STEPfile::ReadHeader — the loop over the header instances
+
+`c` is the C variable (kept across iterations: a failed `in.get( c )` leaves it), `n` the number of header instances read.
+`known kw`: `_headerRegistry->ObjCreate( kw )` returns an object; `rdh kw`: its `STEPread`.
+`sev`: 0 = "End of file reached in reading header section" (`return SEVERITY_EXIT`), 1 = `ENDSEC` seen, 2 = a user-defined
+entity (`!KEYWORD`) skipped and the loop left. -/
+
+def hdrDelims : List Byte := [59, 40, 32, 47, 92]
+
+def hdrStep (rec : IS → Byte → Nat → Nat → Out LoopRes) (tok skip : IS → Out LoopRes) (gk : IS → Out (IS × List Byte × Nat))
+    (rdh : List Byte → IS → Out LoopRes) (known : List Byte → Bool) (s : IS) (c : Byte) (n steps : Nat) : Out LoopRes :=
+  match tok s with
+  | .ok r0 =>
+    if !r0.s.good then .ok ⟨r0.s, 0, n, steps + r0.steps⟩ else
+    match gk (if (r0.s.get).2.getD c = chBang then (r0.s.get).1 else (r0.s.get).1.putback ((r0.s.get).2.getD c)) with
+    | .ok (s3, acc, st3) =>
+      match tok s3 with
+      | .ok r1 =>
+        if acc.reverse = kwENDSEC then .ok ⟨(r1.s.get).1, 1, n, steps + r0.steps + 1 + st3 + r1.steps + 1⟩
+        else if (r0.s.get).2.getD c = chBang then
+          match skip r1.s with
+          | .ok r2 => .ok ⟨r2.s, 2, n, steps + r0.steps + 1 + st3 + r1.steps + r2.steps + 1⟩
+          | .overflow i k => .overflow i k
+          | .outOfFuel => .outOfFuel
+        else if !known acc.reverse then
+          match skip r1.s with
+          | .ok r2 => rec r2.s ((r0.s.get).2.getD c) n (steps + r0.steps + 1 + st3 + r1.steps + r2.steps + 1)
+          | .overflow i k => .overflow i k
+          | .outOfFuel => .outOfFuel
+        else
+          match rdh acc.reverse r1.s with
+          | .ok r2 =>
+            if (r2.s.ws.peek).2 = some 69 then rec (r2.s.ws.peek).1 69 (n + 1) (steps + r0.steps + 1 + st3 + r1.steps + r2.steps + 1)
+            else rec ((r2.s.ws.peek).1.extract).1 (((r2.s.ws.peek).1.extract).2.getD ((r2.s.ws.peek).2.getD 255)) (n + 1)
+              (steps + r0.steps + 1 + st3 + r1.steps + r2.steps + 1)
+          | .overflow i k => .overflow i k
+          | .outOfFuel => .outOfFuel
+      | .overflow i k => .overflow i k
+      | .outOfFuel => .outOfFuel
+    | .overflow i k => .overflow i k
+    | .outOfFuel => .outOfFuel
+  | .overflow i k => .overflow i k
+  | .outOfFuel => .outOfFuel
+
+def hdrLoop (tok skip : IS → Out LoopRes) (gk : IS → Out (IS × List Byte × Nat)) (rdh : List Byte → IS → Out LoopRes)
+    (known : List Byte → Bool) : Nat → IS → Byte → Nat → Nat → Out LoopRes
+  | 0 => fun _ _ _ _ => .outOfFuel
+  | fuel + 1 => hdrStep (hdrLoop tok skip gk rdh known fuel) tok skip gk rdh known
+
+/-- `ReadHeader`: `ReadTokenSeparator`, `FindHeaderSection` (`sev` -1: not found, `return SEVERITY_INPUT_ERROR`), the loop.
+The loop gets twice the fuel: an iteration that ends on a stream that is not good is followed by one more. -/
+def readHeader (known : List Byte → Bool) (rdh : List Byte → IS → Out LoopRes) (cm : Bool) (iters n : Nat) (ex : ExitCond)
+    (fuel : Nat) (s : IS) : Out LoopRes :=
+  match readTokenSeparator cm iters fuel s with
+  | .ok r0 =>
+    match findHeaderSectionWith cm iters n ex fuel r0.s with
+    | .ok r1 =>
+      if r1.sev = 0 then .ok ⟨r1.s, -1, 0, r0.steps + r1.steps⟩
+      else hdrLoop (readTokenSeparator cm iters fuel) (skipInstance cm iters fuel) (getKeywordFull hdrDelims fuel) rdh known
+        (2 * fuel) r1.s 0 0 (r0.steps + r1.steps)
+    | .overflow i k => .overflow i k
+    | .outOfFuel => .outOfFuel
+  | .overflow i k => .overflow i k
+  | .outOfFuel => .outOfFuel
+
+/-! ### STEPfile::AppendFile — the two passes as compositions of the stages above
+
+`sev`: 1 = the pass ran to its end, -1 = "Faulty input at beginning of file", -2 = the header section ended the read
+(`rval < SEVERITY_WARNING`: no `HEADER;`, end of file inside it, or — `goOn = false` — an error severity from a header
+entity), -3 = no `DATA;`, -4 = pass 2 counted another number of instances than pass 1.  `len` = the instance count. -/
+
+def kwISO : List Byte := [73, 83, 79, 45, 49, 48, 51, 48, 51, 45, 50, 49]
+def kwWS : List Byte := [83, 84, 69, 80, 95, 87, 79, 82, 75, 73, 78, 71, 95, 83, 69, 83, 83, 73, 79, 78]
+def startDelims : List Byte := [59, 32, 35]
+def endDelims : List Byte := [59]
+
+/-- `!strncmp( keywd, "ISO-10303-21", strlen( keywd ) )`: the keyword is a prefix (the empty one included); `some true`:
+working-session file -/
+def fileKind (kw : List Byte) : Option Bool :=
+  if isPrefix kw kwISO then some false else if isPrefix kw kwWS then some true else none
+
+def appendFile1 (o : Oracle) (known : List Byte → Bool) (rdh : List Byte → IS → Out LoopRes) (guard : Option Nat) (cm goOn : Bool)
+    (iters n : Nat) (ex : ExitCond) (maxErr fuel : Nat) (s : IS) : Out LoopRes :=
+  match readTokenSeparator cm iters fuel s with
+  | .ok r0 =>
+    match getKeywordFull startDelims fuel r0.s with
+    | .ok (s1, acc, st1) =>
+      match fileKind acc.reverse with
+      | none => .ok ⟨(s1.get).1, -1, 0, r0.steps + st1 + 1⟩
+      | some ws =>
+        match readHeader known rdh cm iters n ex fuel (s1.get).1 with
+        | .ok r2 =>
+          if r2.sev ≤ 0 || !goOn then .ok ⟨r2.s, -2, 0, r0.steps + st1 + 1 + r2.steps⟩ else
+          match findDataSection cm iters fuel r2.s with
+          | .ok r3 =>
+            if r3.sev = 0 then .ok ⟨r3.s, -3, 0, r0.steps + st1 + 1 + r2.steps + r3.steps⟩ else
+            match readData1 o guard cm ws iters maxErr fuel r3.s with
+            | .ok r4 => .ok ⟨r4.s, 1, r4.count, r0.steps + st1 + 1 + r2.steps + r3.steps + r4.steps⟩
+            | .overflow i k => .overflow i k
+            | .outOfFuel => .outOfFuel
+          | .overflow i k => .overflow i k
+          | .outOfFuel => .outOfFuel
+        | .overflow i k => .overflow i k
+        | .outOfFuel => .outOfFuel
+    | .overflow i k => .overflow i k
+    | .outOfFuel => .outOfFuel
+  | .overflow i k => .overflow i k
+  | .outOfFuel => .outOfFuel
+
+/-- pass 2 on the reopened file: `FindDataSection`, `ReadData2`, `ReadTokenSeparator`, the count comparison with pass 1
+(`total`), and the end-of-file keyword (`ReadTokenSeparator; GetKeyword( ";" ); get`) -/
+def appendFile2 (ri : IS → Out LoopRes) (cm ws : Bool) (iters maxErr total fuel : Nat) (s : IS) : Out LoopRes :=
+  match findDataSection cm iters fuel s with
+  | .ok r0 =>
+    if r0.sev = 0 then .ok ⟨r0.s, -3, 0, r0.steps⟩ else
+    match readData2 ri cm ws iters maxErr fuel r0.s with
+    | .ok r1 =>
+      match readTokenSeparator cm iters fuel r1.s with
+      | .ok r2 =>
+        if total ≠ r1.count then .ok ⟨r2.s, -4, r1.count, r0.steps + r1.steps + r2.steps⟩
+        else if !r2.s.good then .ok ⟨r2.s, 1, r1.count, r0.steps + r1.steps + r2.steps⟩
+        else
+          match readTokenSeparator cm iters fuel r2.s with
+          | .ok r3 =>
+            match getKeywordFull endDelims fuel r3.s with
+            | .ok (s4, _, st4) => .ok ⟨(s4.get).1, 1, r1.count, r0.steps + r1.steps + r2.steps + r3.steps + st4 + 1⟩
+            | .overflow i k => .overflow i k
+            | .outOfFuel => .outOfFuel
+          | .overflow i k => .overflow i k
+          | .outOfFuel => .outOfFuel
+      | .overflow i k => .overflow i k
+      | .outOfFuel => .outOfFuel
+    | .overflow i k => .overflow i k
+    | .outOfFuel => .outOfFuel
+  | .overflow i k => .overflow i k
+  | .outOfFuel => .outOfFuel
+
 end StepModel.P21Safe
